@@ -57,6 +57,7 @@ type spec struct {
 	NeedsSim bool
 	InstrFiles []instrSpec
 	Args       []string // extra worker arguments
+	Extra      []*spec  // further worker groups whose results are merged into this check
 }
 
 var specs = map[string]*spec{}
@@ -92,6 +93,7 @@ func init() {
 	reg(&spec{ID: "C19", Pkg: "./harness/c19", Level: "model_checking", Wasm: true, ShardsQ: 8, ShardsT: n, DeadQ: 240, DeadT: 2400})
 	reg(&spec{ID: "C20", Pkg: "./harness/c20", Level: "model_checking", ShardsQ: n, ShardsT: n, DeadQ: 240, DeadT: 1800})
 	reg(&spec{ID: "C16", Pkg: "./harness/c16", Level: "exploration", ShardsQ: n, ShardsT: n, DeadQ: 150, DeadT: 1500})
+	specs["C04"].Extra = []*spec{{ID: "C04", Pkg: "./harness/conc", Level: "model_checking", ShardsQ: n, ShardsT: n, DeadQ: 240, DeadT: 2400, Args: []string{"-prop", "C04"}, InstrFiles: sinstr}}
 }
 
 func env() []string {
@@ -150,7 +152,7 @@ func prepareBuild(sp *spec) (modfile, overlay string) {
 		instrument(sp, repo, dir, repl)
 	}
 	ob, _ := json.MarshalIndent(map[string]interface{}{"Replace": repl}, "", " ")
-	overlay = filepath.Join(dir, "overlay-"+sp.ID+".json")
+	overlay = filepath.Join(dir, "overlay-"+sp.ID+"-"+filepath.Base(sp.Pkg)+".json")
 	os.WriteFile(overlay, ob, 0o644)
 	return
 }
@@ -170,7 +172,7 @@ func build(sp *spec) string {
 		}
 	}
 	modfile, overlay := prepareBuild(sp)
-	bin := filepath.Join(root, ".cache", "bin", repoKey(), sp.ID)
+	bin := filepath.Join(root, ".cache", "bin", repoKey(), sp.ID+"-"+filepath.Base(sp.Pkg))
 	os.MkdirAll(filepath.Dir(bin), 0o755)
 	args := []string{"build", "-tags", "verif", "-overlay", overlay, "-modfile", modfile, "-o", bin}
 	if sp.Race {
@@ -307,58 +309,19 @@ func runCheck(sp *spec, tier string, extra []string) int {
 	os.RemoveAll(tmp)
 	os.MkdirAll(tmp, 0o755)
 
-	results := make([]*hc.Result, n)
-	crashes := make([]string, n)
-	var wg sync.WaitGroup
-	for i := 0; i < n; i++ {
-		wg.Add(1)
-		go func(i int) {
-			defer wg.Done()
-			out := filepath.Join(tmp, fmt.Sprintf("shard%d.json", i))
-			args := []string{"-tier", tier, "-shard", strconv.Itoa(i), "-nshards", strconv.Itoa(n), "-out", out, "-deadline", strconv.Itoa(dead)}
-			if only != "" {
-				args = append(args, "-only", only)
-			}
-			args = append(args, sp.Args...)
-			cmd := workerCmd(sp, bin, args)
-			var stderr bytes.Buffer
-			cmd.Stderr = &stderr
-			cmd.Stdout = &stderr
-			// hard stop: a worker that overruns its soft deadline by far is spinning or
-			// deadlocked inside the code under test; it is killed and reported
-			hard := time.AfterFunc(time.Duration(2*dead+180)*time.Second, func() {
-				if cmd.Process != nil {
-					cmd.Process.Signal(syscall.SIGQUIT)
-					time.Sleep(2 * time.Second)
-					cmd.Process.Kill()
-				}
-			})
-			err := cmd.Run()
-			hard.Stop()
-			if err != nil {
-				s := stderr.String()
-				if len(s) > 6000 {
-					s = s[:3000] + "\n...\n" + s[len(s)-3000:]
-				}
-				crashes[i] = fmt.Sprintf("shard %d: %v\n%s", i, err, s)
-				os.WriteFile(filepath.Join(tmp, fmt.Sprintf("shard%d.stderr", i)), stderr.Bytes(), 0o644)
-			}
-			b, err := os.ReadFile(out)
-			if err == nil {
-				var r hc.Result
-				if json.Unmarshal(b, &r) == nil {
-					results[i] = &r
-					if sp.Race {
-						r.Violations = append(r.Violations, raceReports(sp.ID, stderr.String())...)
-					}
-				}
-			}
-			if results[i] != nil && stderr.Len() > 0 && crashes[i] == "" {
-				os.WriteFile(filepath.Join(tmp, fmt.Sprintf("shard%d.stderr", i)), stderr.Bytes(), 0o644)
-			}
-		}(i)
+	results, crashes := runWorkers(sp, bin, tier, n, dead, only, tmp)
+	for xi, ex := range sp.Extra {
+		xbin := build(ex)
+		xn, xdead := ex.ShardsQ, ex.DeadQ
+		if tier == "thorough" {
+			xn, xdead = ex.ShardsT, ex.DeadT
+		}
+		xtmp := filepath.Join(tmp, fmt.Sprintf("extra%d", xi))
+		os.MkdirAll(xtmp, 0o755)
+		r2, c2 := runWorkers(ex, xbin, tier, xn, xdead, only, xtmp)
+		results = append(results, r2...)
+		crashes = append(crashes, c2...)
 	}
-	wg.Wait()
 
 	// merge
 	var m hc.Result
@@ -496,6 +459,63 @@ func runCheck(sp *spec, tier string, extra []string) int {
 		return 2
 	}
 	return exit
+}
+
+func runWorkers(sp *spec, bin, tier string, n, dead int, only, tmp string) ([]*hc.Result, []string) {
+	results := make([]*hc.Result, n)
+	crashes := make([]string, n)
+	var wg sync.WaitGroup
+	for i := 0; i < n; i++ {
+		wg.Add(1)
+		go func(i int) {
+			defer wg.Done()
+			out := filepath.Join(tmp, fmt.Sprintf("shard%d.json", i))
+			args := []string{"-tier", tier, "-shard", strconv.Itoa(i), "-nshards", strconv.Itoa(n), "-out", out, "-deadline", strconv.Itoa(dead)}
+			if only != "" {
+				args = append(args, "-only", only)
+			}
+			args = append(args, sp.Args...)
+			cmd := workerCmd(sp, bin, args)
+			var stderr bytes.Buffer
+			cmd.Stderr = &stderr
+			cmd.Stdout = &stderr
+			// hard stop: a worker that overruns its soft deadline by far is spinning or
+			// deadlocked inside the code under test; it is killed and reported
+			hard := time.AfterFunc(time.Duration(2*dead+180)*time.Second, func() {
+				if cmd.Process != nil {
+					cmd.Process.Signal(syscall.SIGQUIT)
+					time.Sleep(2 * time.Second)
+					cmd.Process.Kill()
+				}
+			})
+			err := cmd.Run()
+			hard.Stop()
+			if err != nil {
+				s := stderr.String()
+				if len(s) > 6000 {
+					s = s[:3000] + "\n...\n" + s[len(s)-3000:]
+				}
+				crashes[i] = fmt.Sprintf("shard %d: %v\n%s", i, err, s)
+				os.WriteFile(filepath.Join(tmp, fmt.Sprintf("shard%d.stderr", i)), stderr.Bytes(), 0o644)
+			}
+			b, err := os.ReadFile(out)
+			if err == nil {
+				var r hc.Result
+				if json.Unmarshal(b, &r) == nil {
+					results[i] = &r
+					if sp.Race {
+						r.Violations = append(r.Violations, raceReports(sp.ID, stderr.String())...)
+					}
+				}
+			}
+			if results[i] != nil && stderr.Len() > 0 && crashes[i] == "" {
+				os.WriteFile(filepath.Join(tmp, fmt.Sprintf("shard%d.stderr", i)), stderr.Bytes(), 0o644)
+			}
+		}(i)
+	}
+	wg.Wait()
+
+	return results, crashes
 }
 
 func firstLines(s string, n int) string {
